@@ -95,6 +95,7 @@ func checkC14(c *Ctx) {
 	}
 	handlers := c.webHandlers()
 	r.Floor("C14/NIL/handlers", "web.Handler conversions in route tables", len(handlers), 1)
+	c.c14BodyOnSuccess(handlers, getMsg, srcRd)
 	// the name a handler canonicalises is the router's path variable as the router decoded it
 	// (decided by C04's URL-variable rule): a second decoding step in between turns '+' or
 	// '%25' into other characters and every endpoint then acts on another mailbox or fails
@@ -353,7 +354,25 @@ func checkC14(c *Ctx) {
 	c.c14Name(handlers, mgr, mbfa)
 	c.c14Routes()
 	c.c14RouteEffects()
+	c.c14MarkSeenEffect(sm)
 	c.c14ErrPropagate(units)
+	r.Rule("C14/ERR/contradictions", "in the handlers, the message manager and the Go client: no return reports a failure built from an error that is known nil there, and no return reports success on the branch where a call's error is known non-nil (sentinel and classifier tests excuse)")
+	var cfns []*ssa.Function
+	cfns = append(cfns, units...)
+	for _, rel := range []string{"pkg/message", "pkg/rest/client"} {
+		for _, g := range pkgFuncs(p, rel) {
+			dup := false
+			for _, u := range cfns {
+				if u == g {
+					dup = true
+				}
+			}
+			if !dup {
+				cfns = append(cfns, g)
+			}
+		}
+	}
+	r.Floor("C14/ERR/contradictions", "returns examined", c.errContradictions("C14/ERR/contradictions", cfns, "the API answers 500 for requests that worked and carries on with the ones that did not"), 10)
 	c.c14ClientErrors()
 	// the handlers and what they run synchronously, also through a function value (a handler
 	// may be a thin wrapper around an action function: mailboxActionV1(f).handle); code that only
